@@ -241,7 +241,10 @@ static void r_put(rchan *t, unsigned uc, unsigned cell_amb)
 #endif
   V_ASSUME(!t->cur_amb);
   /* EIA 608-B C.7: characters to the right of an overwritten position may adopt other attributes */
-  for (c = 1; c <= 32; c++) if (c > t->col) { uint32_t v = r_get(t, k, t->row, c); if (CU(v)) r_set(t, k, t->row, c, v | ((A_FGUI | A_FL) << 27)); }
+  for (c = 1; c <= 32; c++) if (c > t->col) {
+    if (k) { if (CU(t->m[1][t->row][c - 1])) t->m[1][t->row][c - 1] |= (A_FGUI | A_FL) << 27; }
+    else { if (CU(t->m[0][t->row][c - 1])) t->m[0][t->row][c - 1] |= (A_FGUI | A_FL) << 27; }
+  }
   if (uc) r_set(t, k, t->row, t->col, r_mk(&t->pen, uc) | (cell_amb << 27));
   else r_set(t, k, t->row, t->col, 0);
   if (t->col < 32) t->col++; else t->full = 1;                       /* (f)(1)(v): stays in column 32 */
@@ -553,8 +556,8 @@ typedef uint64_t __attribute__((may_alias, aligned(4))) u64_alias;
 #define W_FL(w) ((unsigned) (((w) >> 3) & 1))
 /* bold, conceal, proportional, link, reserved, size, drcs_clut_offs zero; colours < 8; opacity < 4 */
 #define W_WELLFORMED(w) ((((w) & 0x0000FF000000FFF2ull) == 0) & (W_FG(w) < 8) & (W_BG(w) < 8) & (W_OPACITY(w) < 4))
-static uint32_t lib_pack_w(uint64_t w)
-{ return W_UNICODE(w) | (W_FG(w) << 16) | (W_BG(w) << 19) | (W_OPACITY(w) << 22) | (W_UL(w) << 24) | (W_IT(w) << 25) | (W_FL(w) << 26); }
+/* (macro, not a function: a function call/return costs symex ~10 ms once the decoder state is populated) */
+#define LIB_PACK_W(w) (W_UNICODE(w) | (W_FG(w) << 16) | (W_BG(w) << 19) | (W_OPACITY(w) << 22) | (W_UL(w) << 24) | (W_IT(w) << 25) | (W_FL(w) << 26))
 
 static void prev_init(void) { EVSEEN[0] = EVSEEN[1] = 0; n_compared = 0; }
 
@@ -566,6 +569,7 @@ static void compare_page(rchan *t, int which, unsigned rows)
 {
   int r, c, pgno = (CH & 3) + 1 + 4 * which;
   unsigned ok_wf = 1, ok_char = 1, ok_transp = 1, ok_pad = 1, ok_fg = 1, ok_fl = 1, ok_bg = 1;
+  uint32_t Dv[COLUMNS], L, Rv, x; uint64_t roww[COLUMNS], w; unsigned lop, amb, nb, e;
   /* The cells are read from the page vbi_fetch_cc_page() copies (cc.channel[pgno - 1].pg[hidden ^ 1]), not from the
      copy: reading 510 cells back out of the memcpy'd 9 KB object stalls symex.  That the copy equals this page
      is the separate obligation fetch_contract (h_cc_fetch). */
@@ -576,15 +580,15 @@ static void compare_page(rchan *t, int which, unsigned rows)
   V_ASSERT(hid == 0 || hid == 1, "hidden_is_0_or_1");
   txt = hid ? lch->pg[0].text : lch->pg[1].text;
   for (r = 0; r < ROWS; r++) if ((rows >> r) & 1) {
-    uint32_t Dv[COLUMNS];
     Dv[0] = 0; Dv[COLUMNS - 1] = 0;
     for (c = 0; c < 32; c++) Dv[c + 1] = t->disp ? t->m[1][r][c] : t->m[0][r][c];
+    memcpy(roww, &txt[r * COLUMNS], sizeof roww);          /* one copy out of the decoder object per row (fast), then small-object reads */
     for (c = 0; c < COLUMNS; c++) {
-      uint64_t w = *(const u64_alias *) &txt[r * COLUMNS + c];
-      uint32_t L = lib_pack_w(w), Rv = Dv[c], x = L ^ Rv;
-      unsigned lop = W_OPACITY(w), amb = Rv >> 27;
-      unsigned nb = (c > 0 ? CU(Dv[c - 1]) : 0) | (c < COLUMNS - 1 ? CU(Dv[c + 1]) : 0);
-      unsigned e = (CU(Rv) == 0);
+      w = roww[c];
+      L = LIB_PACK_W(w); Rv = Dv[c]; x = L ^ Rv;
+      lop = W_OPACITY(w); amb = Rv >> 27;
+      nb = (c > 0 ? CU(Dv[c - 1]) : 0) | (c < COLUMNS - 1 ? CU(Dv[c + 1]) : 0);
+      e = (CU(Rv) == 0);
       ok_wf &= (unsigned) W_WELLFORMED(w);
       /* nothing displayable here: transparent (caption) / blank (text); a solid space is tolerated next to a displayable character, (d)(1) */
       ok_transp &= !e | (CU(L) == 0x20);
@@ -669,6 +673,9 @@ static void step(uint8_t b1, uint8_t b2) { lib_feed(b1, b2); after_step(b1, b2);
 #define S_MR(code) S_CTL(1, 0x20 | (code))
 #define S_SP(code) S_CTL(1, 0x30 | (code))
 #define S_NUL step(0x80, 0x80)
+/* control code whose second byte arrives with a parity error (must be ignored) */
+#define S_CTLBAD(k, c2) step(CTL1(k), (uint8_t) (ODD(c2) ^ 0x80))
+#define S_MISCBAD(c2) S_CTLBAD(4 | CTRL_F, c2)
 /* PAC, row code rc = 0..15 (index of the PAC table: first byte low bits * 2 + bit 5 of the second byte), low5 literal */
 #define S_PAC(rc, low5) S_CTL((rc) >> 1, 0x40 | (((rc) & 1) << 5) | (low5))
 /* text pair: first byte literal (with its parity bit), second byte fully symbolic (8 bits) */
@@ -678,44 +685,65 @@ static void step(uint8_t b1, uint8_t b2) { lib_feed(b1, b2); after_step(b1, b2);
 #define S_TXA S_TX(ODD(0x41))
 #define S_TXS S_TX(ODD(0x20))
 
-/* N-way case split over literals: the decoder is called with literal bytes, the reference model once with the symbolic ones */
-#define SPLIT_BEGIN(n) { unsigned sel_ = in_u8(); V_ASSUME(sel_ < (n)); {
-#define SPLIT_CASE(i, b1, b2) if (sel_ == (i)) { lib_feed((b1), (b2)); s1_ = (b1); s2_ = (b2); }
-#define SPLIT_END } after_step(s1_, s2_); }
+/* N-way case split over literals: the decoder is called with literal bytes, the reference model once with the symbolic
+ * ones.  The split is an if / else-if CHAIN: every call starts from the state before the split (sequential ifs would run
+ * the later calls on the merged, no longer concrete state). */
+#define X_CASE(i, b1, b2) else if (sel_ == (unsigned) (i)) { lib_feed((b1), (b2)); s1_ = (b1); s2_ = (b2); }
+#define X_CASE4(i, b1, f) X_CASE(i, b1, f(i)) X_CASE((i) + 1, b1, f((i) + 1)) X_CASE((i) + 2, b1, f((i) + 2)) X_CASE((i) + 3, b1, f((i) + 3))
+#define X_CASE16(i, b1, f) X_CASE4(i, b1, f) X_CASE4((i) + 4, b1, f) X_CASE4((i) + 8, b1, f) X_CASE4((i) + 12, b1, f)
 
 /* PAC to row code rc with symbolic attribute / indent / underline bits (32 literals) */
+#define PACX_B2(i) ODD(0x40 | ((rc & 1) << 5) | (i))
 static void step_pacx(unsigned rc)
 {
-  unsigned s1_ = 0, s2_ = 0, i; unsigned sel_ = in_u8() & 31;
-  for (i = 0; i < 32; i++) if (sel_ == i) { uint8_t a = CTL1(rc >> 1), b = ODD(0x40 | ((rc & 1) << 5) | i); lib_feed(a, b); s1_ = a; s2_ = b; }
+  unsigned s1_ = 0, s2_ = 0; unsigned sel_ = in_u8() & 31; uint8_t a = CTL1(rc >> 1);
+  if (0) { } X_CASE16(0, a, PACX_B2) X_CASE16(16, a, PACX_B2)
   after_step(s1_, s2_);
 }
 #define S_PACX(rc) step_pacx(rc)
+/* the 16 indent PACs only / the 16 colour PACs only */
+static void step_pacx_indent(unsigned rc)
+{
+  unsigned s1_ = 0, s2_ = 0; unsigned sel_ = 16 + (in_u8() & 15); uint8_t a = CTL1(rc >> 1);
+  if (0) { } X_CASE16(16, a, PACX_B2)
+  after_step(s1_, s2_);
+}
+#define S_PACI(rc) step_pacx_indent(rc)
+static void step_pacx_colour(unsigned rc)
+{
+  unsigned s1_ = 0, s2_ = 0; unsigned sel_ = in_u8() & 15; uint8_t a = CTL1(rc >> 1);
+  if (0) { } X_CASE16(0, a, PACX_B2)
+  after_step(s1_, s2_);
+}
+#define S_PACC(rc) step_pacx_colour(rc)
 /* any mid-row code (16 literals) */
+#define MRX_B2(i) ODD(0x20 | (i))
 static void step_mrx(void)
 {
-  unsigned s1_ = 0, s2_ = 0, i; unsigned sel_ = in_u8() & 15;
-  for (i = 0; i < 16; i++) if (sel_ == i) { uint8_t a = CTL1(1), b = ODD(0x20 | i); lib_feed(a, b); s1_ = a; s2_ = b; }
+  unsigned s1_ = 0, s2_ = 0; unsigned sel_ = in_u8() & 15; uint8_t a = CTL1(1);
+  if (0) { } X_CASE16(0, a, MRX_B2)
   after_step(s1_, s2_);
 }
 #define S_MRX step_mrx()
 /* any special character (16 literals) */
+#define SPX_B2(i) ODD(0x30 | (i))
 static void step_spx(void)
 {
-  unsigned s1_ = 0, s2_ = 0, i; unsigned sel_ = in_u8() & 15;
-  for (i = 0; i < 16; i++) if (sel_ == i) { uint8_t a = CTL1(1), b = ODD(0x30 | i); lib_feed(a, b); s1_ = a; s2_ = b; }
+  unsigned s1_ = 0, s2_ = 0; unsigned sel_ = in_u8() & 15; uint8_t a = CTL1(1);
+  if (0) { } X_CASE16(0, a, SPX_B2)
   after_step(s1_, s2_);
 }
 #define S_SPX step_spx()
-/* any of the commands that do not move the cursor to another row or change the mode:
- * BS DER FON EDM ENM TO1 TO2 TO3 null pair, reserved misc codes 2 and 3 */
+/* any of the commands that neither move the cursor to another row nor change the mode:
+ * BS DER FON EDM ENM, reserved misc codes 2 and 3, TO1 TO2 TO3, null pair */
 static void step_datax(void)
 {
-  static const uint8_t m2[11] = { 0x21, 0x24, 0x28, 0x2C, 0x2E, 0x22, 0x23, 0x21, 0x22, 0x23, 0x00 };
-  unsigned s1_ = 0, s2_ = 0, i; unsigned sel_ = in_u8(); V_ASSUME(sel_ < 11);
-  for (i = 0; i < 7; i++) if (sel_ == i) { uint8_t a = CTL1(4 | CTRL_F), b = ODD(m2[i]); lib_feed(a, b); s1_ = a; s2_ = b; }
-  for (i = 7; i < 10; i++) if (sel_ == i) { uint8_t a = CTL1(7), b = ODD(m2[i]); lib_feed(a, b); s1_ = a; s2_ = b; }
-  if (sel_ == 10) { lib_feed(0x80, 0x80); s1_ = 0x80; s2_ = 0x80; }
+  unsigned s1_ = 0, s2_ = 0; unsigned sel_ = in_u8(); uint8_t m = CTL1(4 | CTRL_F), x = CTL1(7);
+  V_ASSUME(sel_ < 11);
+  if (0) { }
+  X_CASE(0, m, ODD(0x21)) X_CASE(1, m, ODD(0x24)) X_CASE(2, m, ODD(0x28)) X_CASE(3, m, ODD(0x2C)) X_CASE(4, m, ODD(0x2E))
+  X_CASE(5, m, ODD(0x22)) X_CASE(6, m, ODD(0x23)) X_CASE(7, x, ODD(0x21)) X_CASE(8, x, ODD(0x22)) X_CASE(9, x, ODD(0x23))
+  X_CASE(10, 0x80, 0x80)
   after_step(s1_, s2_);
 }
 #define S_DATAX step_datax()
